@@ -93,7 +93,7 @@ func RunXUse(out string, seed int64, n int) (*Summary, error) {
 	login := func(host, email string) (string, error) {
 		st := world.Do(p.Handler, world.NewReq("GET", host, "/x", nil, nil, ""))
 		loc, err := url.Parse(st.Header.Get("Location"))
-		if err != nil || st.Status != 302 {
+		if err != nil || !world.IsRedirect(st.Status) {
 			return "", fmt.Errorf("start on %s: %d", host, st.Status)
 		}
 		csrf, _ := st.CookieAfter(p.CSRFName, "")
